@@ -41,9 +41,11 @@ TNone  == TPrim("none")
 F(name, type) ==
   [name |-> name, alias |-> name, type |-> type, dk |-> "req", dv |-> DNull, flat |-> FALSE,
    props |-> "no", pat |-> "", reqmd |-> FALSE, skipd |-> FALSE, skips |-> FALSE, nau |-> FALSE,
-   fbd |-> FALSE, kind |-> "normal", cons |-> <<>>]
+   fbd |-> FALSE, kind |-> "normal", cons |-> <<>>, skip_default |-> FALSE, skip_if |-> "", inherited |-> FALSE]
 FD(name, type, dv) == [F(name, type) EXCEPT !.dk = "val", !.dv = dv]
-Cls(kind, fields)  == [kind |-> kind, fields |-> fields, depreq |-> <<>>]
+Cls(kind, fields)  == [kind |-> kind, fields |-> fields, depreq |-> <<>>, smethods |-> <<>>, postinc |-> "", bases |-> <<>>]
+SM(name, al, rtype, rv) == [name |-> name, alias |-> al, rtype |-> rtype, rv |-> rv]
+TUndef == TPrim("undef")
 
 UEnums ==
   [EI |-> << <<"ONE", DInt(1)>>, <<"TWO", DInt(2)>> >>,
@@ -77,9 +79,28 @@ UClasses ==
    IV   |-> Cls("dataclass", << F("a", TInt), [F("w", TInt) EXCEPT !.kind = "wo"] >>),
    NT   |-> Cls("namedtuple", << F("a", TInt), FD("b", TStr, DStr("q")) >>),
    TD   |-> Cls("typeddict", << F("a", TInt), FD("b", TStr, VUndef) >>),
+   TDE  |-> Cls("typeddict", << F("e", TEnum("ES")), FD("t", TTuple(<<TInt, TStr>>), VUndef) >>),
    TDO  |-> Cls("typeddict", << FD("a", TInt, VUndef), FD("b", TColl("list", TInt), VUndef) >>),
    CAT  |-> Cls("dataclass", << F("a", TInt), [FD("knd", TLit(<<DStr("cat")>>), DStr("cat")) EXCEPT !.alias = "type"] >>),
    DOG  |-> Cls("dataclass", << [F("knd", TLit(<<DStr("dog"), DStr("d")>>)) EXCEPT !.alias = "type"], FD("b", TStr, DStr("")) >>),
+   \* serialization-side features
+   SD   |-> Cls("dataclass", << F("a", TInt), [FD("b", TInt, DInt(1)) EXCEPT !.skip_default = TRUE],
+                                [FD("c", TStr, DStr("x")) EXCEPT !.skip_if = "empty"] >>),
+   SS   |-> Cls("dataclass", << F("a", TInt), [FD("b", TInt, DInt(3)) EXCEPT !.skips = TRUE],
+                                [FD("n", TOpt(TInt), DNull) EXCEPT !.skip_if = "neg"] >>),
+   UD   |-> Cls("dataclass", << FD("a", TInt, VUndef), FD("b", TUnion(<<TStr, TUndef>>), VUndef),
+                                FD("c", TUnion(<<TInt, TNone, TUndef>>), DNull) >>),
+   SMT  |-> [Cls("dataclass", << F("a", TInt), FD("b", TOpt(TStr), DNull) >>)
+               EXCEPT !.smethods = << SM("m1", "m1", TInt, DInt(5)), SM("m2", "mm", TOpt(TInt), DNull),
+                                      SM("m3", "m3", TUnion(<<TStr, TUndef>>), VUndef),
+                                      SM("m4", "m4", TColl("list", TInt), VList(<<DInt(1)>>)) >>],
+   \* __post_init__ (adds 100 to field a), defined by PIB and merely inherited by PIC
+   PIB  |-> [Cls("dataclass", << F("a", TInt) >>) EXCEPT !.postinc = "a"],
+   PIC  |-> [Cls("dataclass", << [F("a", TInt) EXCEPT !.inherited = TRUE], FD("b", TStr, DStr("x")) >>)
+               EXCEPT !.postinc = "a", !.bases = <<"PIB">>],
+   \* TypedDict with an explicitly aliased key
+   TDA  |-> Cls("typeddict", << [F("foo", TInt) EXCEPT !.alias = "Foo"], FD("bar", TEnum("ES"), VUndef) >>),
+   UF   |-> Cls("dataclass", << F("u", TUnion(<<TInt, TEnum("ES")>>)), FD("l", TUnion(<<TEnum("EI"), TStr>>), DStr("s")) >>),
    EF   |-> Cls("dataclass", << F("e", TEnum("EI")), FD("l", TLit(<<DStr("a"), DInt(2)>>), DStr("a")) >>)]
 
 ObjClasses == DOMAIN UClasses
@@ -89,7 +110,7 @@ UAliasers ==
   [id    |-> <<>>,
    upper |-> << <<"a", "A">>, <<"b", "B">>, <<"bb", "BB">>, <<"c", "C">>, <<"d", "D">>, <<"e", "E">>,
                 <<"l", "L">>, <<"s", "S">>, <<"x", "X">>, <<"z", "Z">>, <<"o", "O">>, <<"p", "P">>,
-                <<"f", "F">>, <<"w", "W">>, <<"type", "TYPE">>, <<"kind", "KIND">> >>]
+                <<"f", "F">>, <<"w", "W">>, <<"t", "T">>, <<"u", "U">>, <<"type", "TYPE">>, <<"kind", "KIND">> >>]
 
 Opt(addl, fbd, coerce, ali) == [addl |-> addl, fbd |-> fbd, coerce |-> coerce, ali |-> UAliasers[ali], aliname |-> ali,
                                 impl |-> FALSE, dev |-> {}]
@@ -143,8 +164,15 @@ WF(t) == CASE t.k = "union" -> (\A i, j \in DOMAIN t.alts : i # j => t.alts[i] #
            [] t.k = "map"   -> WF(t.vt)
            [] OTHER -> TRUE
 
+\* containers / fields of unions mixing a check-only alternative with a transforming one
+MixedUnions == { TUnion(<<TInt, TEnum("ES")>>), TUnion(<<TEnum("EI"), TStr>>), TUnion(<<TInt, TLit(<<DStr("a"), DInt(2)>>)>>),
+                 TUnion(<<TStr, TFloat>>), TUnion(<<TInt, TColl("set", TInt)>>) }
+NestedUnionTypes == { TColl("list", t) : t \in MixedUnions } \cup { TMap(TStr, t) : t \in MixedUnions }
+                    \cup { TColl("vtuple", t) : t \in MixedUnions } \cup { TOpt(TColl("list", t)) : t \in MixedUnions }
+
 TypesD0 == Leaves
 TypesD1 == { t \in UNION { Ctor1(t) : t \in Leaves } \cup SetTypes \cup MapTypes \cup ObjTypes \cup UnionTypes
+                    \cup NestedUnionTypes
                     \cup DUnionTypes \cup { TColl("list", t) : t \in DUnionTypes } : WF(t) }
 \* depth 2: constructors over a sample of depth-1 types
 D1Sample == { TColl("list", TInt), TOpt(TStr), TMap(TStr, TInt), TTuple(<<TInt, TStr>>), TObj("P2"),
